@@ -743,6 +743,28 @@ Fixpoint need_conversion (t : dtype) : bool :=
   | _ => const_need_conversion (dtype_class t)
   end.
 
+(* StructType._match_fields_by_name: a Row holding the fields of the struct in another order (duplicate-free, same
+   names) is re-listed in schema order, its values looked up by name as the verifier does *)
+Fixpoint strs_eqb (a b : list str) : bool :=
+  match a, b with
+  | [], [] => true
+  | x :: a', y :: b' => str_eqb x y && strs_eqb a' b'
+  | _, _ => false
+  end.
+Fixpoint ins_str (k : str) (l : list str) : list str :=
+  match l with
+  | [] => [k]
+  | k' :: r => if str_leb k k' then k :: l else k' :: ins_str k r
+  end.
+Definition sort_strs (l : list str) : list str := fold_right ins_str [] l.
+Fixpoint nodupb (l : list str) : bool :=
+  match l with [] => true | x :: r => negb (str_mem x r) && nodupb r end.
+
+Definition match_fields_by_name (snames names : list str) (vals : list pyval) : res (list str * list pyval) :=
+  if negb (strs_eqb names snames) && nodupb names && strs_eqb (sort_strs names) (sort_strs snames)
+  then bind (mapM (row_get names vals) snames) (fun vs => Ok (snames, vs))
+  else Ok (names, vals).
+
 Section ToInternal.
   Variable local_offset : Z.      (* the UTC offset of the local zone, what astimezone() converts to *)
 
@@ -785,15 +807,18 @@ Section ToInternal.
                               (fun y => bind (go r) (fun ys => Ok (y :: ys)))
                      | [] => Ok []
                      end) fs) (fun vals' => Ok (PTuple vals'))
-        | PRow names vals =>
-            if any then
-              bind ((fix go (fs : list (sfield dtype)) (vals : list pyval) : res (list pyval) :=
-                       match fs, vals with
-                       | SField _ ty _ _ :: r, x :: vals' =>
-                           bind (to_internal ty x) (fun y => bind (go r vals') (fun ys => Ok (y :: ys)))
-                       | _, _ => Ok []
-                       end) fs vals) (fun vals' => Ok (PRow names vals'))
-            else Ok v
+        | PRow names0 vals0 =>
+            bind (match_fields_by_name (map sf_name fs) names0 vals0) (fun nv =>
+              let names := fst nv in
+              let vals := snd nv in
+              if any then
+                bind ((fix go (fs : list (sfield dtype)) (vals : list pyval) : res (list pyval) :=
+                         match fs, vals with
+                         | SField _ ty _ _ :: r, x :: vals' =>
+                             bind (to_internal ty x) (fun y => bind (go r vals') (fun ys => Ok (y :: ys)))
+                         | _, _ => Ok []
+                         end) fs vals) (fun vals' => Ok (PRow names vals'))
+              else Ok (PRow names vals))
         | PTuple vals | PList vals =>
             if any then
               bind ((fix go (fs : list (sfield dtype)) (vals : list pyval) : res (list pyval) :=
